@@ -483,8 +483,8 @@ func (s *session) step(enums map[string][]string, force *TableMeta) {
 		ops = append(ops, "Delete", "Delete", "Delete", "InsertMany") // rarer otherwise: link tables have many by-key helpers
 	}
 	for _, k := range ops {
-		if strings.HasPrefix(k, "Query/") || strings.HasPrefix(k, "SelectByUnique/") || strings.HasPrefix(k, "DeleteByKeys/") {
-			ops = append(ops, k, k) // the helpers derived from comment directives exist in few tables
+		if strings.HasPrefix(k, "Query/") || strings.HasPrefix(k, "SelectByUnique/") || strings.HasPrefix(k, "SelectByUniqueFK/") || strings.HasPrefix(k, "DeleteByKeys/") || strings.HasPrefix(k, "SelectByKeys/") {
+			ops = append(ops, k, k, k, k) // the helpers derived from comment directives exist in few tables
 		}
 	}
 	// inserts are more frequent
